@@ -14,6 +14,7 @@ import (
 	"github.com/ddulesov/gogost/gost3410"
 	"github.com/golang/protobuf/proto" //nolint:staticcheck
 	"github.com/hyperledger/fabric-chaincode-go/shim"
+	"github.com/hyperledger/fabric-protos-go/common"
 	"github.com/hyperledger/fabric-protos-go/peer"
 )
 
@@ -251,6 +252,21 @@ func checkChaincodeAndChannelName(
 		)
 	}
 
+	// The chaincode id inside the payload is whatever the submitter wrote: a peer routes the proposal by the
+	// chaincode name of its header extension and never compares the two. The request must name the chaincode
+	// the proposal was routed to.
+	routedName, ok, err := routedChaincodeName(proposal)
+	if err != nil {
+		return err
+	}
+	if ok && chaincodeName != routedName {
+		return fmt.Errorf(
+			"incorrect chaincode name in args by index 1. found %s but expected %s",
+			chaincodeName,
+			routedName,
+		)
+	}
+
 	if channelName != stub.GetChannelID() {
 		return fmt.Errorf(
 			"incorrect channel name in args by index 2. found %s but expected %s",
@@ -260,4 +276,29 @@ func checkChaincodeAndChannelName(
 	}
 
 	return nil
+}
+
+// routedChaincodeName returns the chaincode name of the proposal's header extension, the name a peer has
+// validated and routed the proposal by. ok is false for a proposal without header.
+func routedChaincodeName(proposal *peer.Proposal) (name string, ok bool, err error) {
+	if len(proposal.GetHeader()) == 0 {
+		return "", false, nil
+	}
+
+	header := &common.Header{}
+	if err = proto.Unmarshal(proposal.GetHeader(), header); err != nil {
+		return "", false, err
+	}
+
+	channelHeader := &common.ChannelHeader{}
+	if err = proto.Unmarshal(header.GetChannelHeader(), channelHeader); err != nil {
+		return "", false, err
+	}
+
+	extension := &peer.ChaincodeHeaderExtension{}
+	if err = proto.Unmarshal(channelHeader.GetExtension(), extension); err != nil {
+		return "", false, err
+	}
+
+	return extension.GetChaincodeId().GetName(), true, nil
 }
